@@ -41,6 +41,9 @@ def jobs(tier, seed):
         H = importlib.import_module("harness." + src)
         js = H.jobs("quick", seed)
         step = max(1, len(js) // n)
-        for j in js[seed % step::step][:n]:
+        picked = js[seed % step::step][:n]
+        if src == "c05":
+            picked = [j for j in js if j["family"] == "empty"] + picked      # empty and degenerate containers, always
+        for j in picked:
             J.append({"family": src + "/" + j["family"], "args": j["args"]})
     return J
